@@ -134,6 +134,12 @@ func genConcPlan(prop string, seed uint64, thorough bool) *Plan {
 	if thorough {
 		maxOps = 12
 	}
+	// class twodb: the connections work in two databases, with flushes of
+	// everything (all database locks at once) in between
+	twodb := prop == "C08" && seed%6 == 5
+	if twodb {
+		p.Class = "twodb"
+	}
 	// a short sequential prologue creates the typed keys
 	var pro []Item
 	for _, t := range types {
@@ -158,6 +164,9 @@ func genConcPlan(prop string, seed uint64, thorough bool) *Plan {
 		g.client = c + 1
 		items := []Item{{Op: "barrier", N: 1}}
 		n := 3 + g.r.IntN(maxOps-2)
+		if twodb && c%2 == 1 {
+			items = append(items, cmdItem("SELECT", "1"))
+		}
 		// a connection that has owned the database exclusively before (EXEC,
 		// CLIENT INFO/LIST) must be locked out like any other afterwards
 		owned := -1
@@ -177,13 +186,24 @@ func genConcPlan(prop string, seed uint64, thorough bool) *Plan {
 					items = append(items, cmdItem("EXEC"))
 				}
 			}
+			if twodb && g.chance(6) {
+				// (COPY ... DB n is answered "database copy not supported" by the
+				// emulator, so FLUSHALL is the only command that takes several
+				// database locks at once)
+				items = append(items, cmdItem(g.pick("FLUSHALL", "FLUSHALL", "FLUSHDB")))
+				continue
+			}
 			items = append(items, Item{Args: bs(g.concCmd(tk)...)})
 		}
 		items = append(items, Item{Op: "barrier", N: 2})
 		p.Clients = append(p.Clients, Client{Items: items, Depth: 1 + g.r.IntN(2)})
 	}
 	p.Clients[0].Items = append(p.Clients[0].Items, Item{Op: "barrier", N: 2})
-	p.Clients = append(p.Clients, observation(g.keys, 2))
+	if twodb {
+		p.Clients = append(p.Clients, observation(g.keys, 2, 0, 1))
+	} else {
+		p.Clients = append(p.Clients, observation(g.keys, 2))
+	}
 	return p
 }
 
